@@ -332,7 +332,7 @@ HARNESSES = {
                       replay=dict(kind="vm_repeat")),
     "repeat_limit": dict(props=["C05", "C09"], crates=CR, fn=repeat_limit, witnesses=["full", "room"],
                          bound_text="repeat stack of 4095 / 4096 entries, any count, both directions", replay=dict(kind="vm_repeat_limit")),
-    "exec_gas": dict(props=["C07", "C05", "C08"], crates=CR, fn=exec_gas, params=dict(quick=dict(nops=2, steps=2), thorough=dict(nops=3, steps=3)),
+    "exec_gas": dict(heavy=True, props=["C07", "C05", "C08"], crates=CR, fn=exec_gas, params=dict(quick=dict(nops=2, steps=2), thorough=dict(nops=3, steps=3)),
                      witnesses=["ok", "out-of-gas", "op-error"],
                      bound=dict(quick="Vm::exec on a 2-op program from any pc, step_op replaced by a nondeterministic op (None/Pc(any)/Halt/ComputeEnd/ComputeResult(any)/Err), any cost per op, any limit, <=2 loop iterations",
                                 thorough="3 ops, <=3 iterations"),
